@@ -96,6 +96,8 @@ def check(tier, seed):
             # $ECONFTOOL_ROOT may be deep: every name the tool prints is then long (250 ... 700 bytes)
             for comp in ("r" * 200, "s" * (evals % 5 * 40 + 30)) + (("t" * 250,) * (evals % 2)): root = os.path.join(root, comp)
             os.makedirs(root)
+        if (evals // 3) % 9 == 4:
+            root = os.path.join(root, "vendor:v2;x"); os.makedirs(root)       # any legal directory name
         try:
             materialise(root, cmds)
             for c, line in zip(tcmds, w[len(cmds):]):
